@@ -12,7 +12,7 @@ RULE = ("one evaluation = one (frame list, partition of the concatenated stream)
         "frame (header or payload) / for outgoing: size class boundary; distinct by (frame sizes, content mode, cuts)")
 ASSUMPTIONS = ["frames are non-empty (the quantifier excludes empty frames)",
                "the layer is driven single-threaded, as the network thread does"]
-REQUIRED = ["recv_cases", "send_cases", "cuts_inside_header", "cuts_inside_payload", "oversize_refused", "reconnect_cases", "reconnect_ok", "reconnect_cut:header", "reconnect_cut:payload", "real_stream_cases", "real_stream_ok", "real_stream:socket", "real_stream:asyncore"]
+REQUIRED = ["recv_cases", "send_cases", "cuts_inside_header", "cuts_inside_payload", "oversize_refused", "reconnect_cases", "reconnect_ok", "reconnect_cut:header", "reconnect_cut:payload", "reconnect_closed_inside_delivery", "real_stream_cases", "real_stream_ok", "real_stream:socket", "real_stream:asyncore"]
 EXHAUSTIVE = None
 
 
@@ -136,6 +136,7 @@ def judge_reconnect(acc, r, case_id):
     from yowsup.layers import YowLayerEvent
     from yowsup.layers.network import YowNetworkLayer
     from yowsup.stacks import YowStack
+    inside = r.random() < 0.4      # the connection is closed from inside the delivery of a frame (a layer above reacts to it)
     n1, n2 = r.randint(1, 4), r.randint(1, 4)
     f1 = content(r.choice([0, 1]), [r.choice([1, 2, 3, 5, 40, 300]) for _ in range(n1)])
     f2 = content(r.choice([0, 1]), [r.choice([1, 2, 3, 5, 40, 300]) for _ in range(n2)])
@@ -157,9 +158,35 @@ def judge_reconnect(acc, r, case_id):
             except queue.Empty:
                 return
     try:
-        for ch in gen.cut(s1[:cut], gen.random_cuts(r, cut, r.choice([0, 1, 3]))) if cut else []:
-            b.receive(ch)
-        b.emitEvent(YowLayerEvent(YowNetworkLayer.EVENT_STATE_DISCONNECTED, reason="cut", detached=True))
+        if inside:
+            # the last complete frame before the cut makes the layer above close the connection while it is being delivered;
+            # whatever follows it in the same chunk (the cut-off rest) arrives in that same receive call
+            pos_, ends = 0, []
+            for f in f1:
+                pos_ += 3 + len(f)
+                if pos_ <= cut:
+                    ends.append(pos_)
+            if not ends:
+                inside = False
+        if inside:
+            acc.count("reconnect_closed_inside_delivery")
+            n_close = len(ends)
+            seen_ = [0]
+
+            def on_receive(data):
+                seen_[0] += 1
+                if seen_[0] == n_close:
+                    b.emitEvent(YowLayerEvent(YowNetworkLayer.EVENT_STATE_DISCONNECTED, reason="closed by a layer above", detached=True))
+            t.on_receive = on_receive
+            head = s1[:ends[-2]] if len(ends) > 1 else b""
+            for ch in gen.cut(head, gen.random_cuts(r, len(head), r.choice([0, 1]))) if head else []:
+                b.receive(ch)
+            b.receive(s1[len(head):cut])       # last complete frame + the cut-off rest in one chunk
+            t.on_receive = None
+        else:
+            for ch in gen.cut(s1[:cut], gen.random_cuts(r, cut, r.choice([0, 1, 3]))) if cut else []:
+                b.receive(ch)
+            b.emitEvent(YowLayerEvent(YowNetworkLayer.EVENT_STATE_DISCONNECTED, reason="cut", detached=True))
         if pump_between:
             pump()
         for ch in gen.cut(s2, gen.random_cuts(r, len(s2), r.choice([0, 1, 3]))):
